@@ -3,6 +3,13 @@
 // repository's own writer (mkocdfdata.py, see tools/mkga.py) produced.
 #include "core.h"
 #include "simfs.h"
+#include "simrandom.h"
+#include <bxdecay0/bb_utils.h>
+#include <bxdecay0/dbd_gA.h>
+#include <bxdecay0/decay0_generator.h>
+#include <bxdecay0/event_reader.h>
+#include <bxdecay0/mdl_event_op.h>
+#include <memory>
 #include <cstdlib>
 #include <fstream>
 #include <sstream>
@@ -30,10 +37,55 @@ std::string ga_file(const std::string & name, const std::string & file)
 
 std::string ga_dataset(const std::string & name) { return ga_file(name, "tab_ocdf.data"); }
 
-void suite_process_init()
+/// Exercise every lazily initialised piece of the library once, so that what a run observes (in particular
+/// WHERE the k-th allocation of an operation falls, for injected allocation failures) does not depend on
+/// which plans this process happened to execute before. Not done for fresh-process batches (C12), whose
+/// point is the first use itself.
+static void warm_up()
+{
+  try {
+    (void)bxdecay0::dbd_modes(); (void)bxdecay0::dbd_isotopes(); (void)bxdecay0::background_isotopes();
+    (void)bxdecay0::dbd_supports_esum_range(bxdecay0::DBDMODE_4); (void)bxdecay0::dbd_mode_from_label("2nubb");
+    (void)bxdecay0::dbd_gA::is_nuclide_supported("Se82");
+    struct Cfg { int cat; const char * nuc; int level; int mode; };
+    const Cfg cfgs[] = {{2, "Co60", 0, 0}, {2, "Bi214+Po214", 0, 0}, {2, "Y90", 0, 0}, {1, "Mo100", 0, 1}, {1, "Mo100", 1, 7}, {1, "Sn122", 0, 4}, {1, "Zr96", 0, 20}, {1, "Cd106", 0, 11}};
+    for (const Cfg & c : cfgs) {
+      bxdecay0::decay0_generator g;
+      g.set_decay_category(c.cat == 1 ? bxdecay0::decay0_generator::DECAY_CATEGORY_DBD : bxdecay0::decay0_generator::DECAY_CATEGORY_BACKGROUND);
+      g.set_decay_isotope(c.nuc);
+      if (c.cat == 1) { g.set_decay_dbd_level(c.level); g.set_decay_dbd_mode(static_cast<bxdecay0::dbd_mode_type>(c.mode)); }
+      auto op = std::make_shared<bxdecay0::momentum_direction_lock_event_op>(false);
+      op->set(bxdecay0::ELECTRON, 0, 0.1, 0.2, 0.3, false);
+      g.add_operation(op);
+      SimRandom r(12345); r.begin_op(50000000);
+      try { g.initialize(r); bxdecay0::event e; for (int i = 0; i < 3; i++) g.shoot(r, e); std::ostringstream o; g.smart_dump(o, "", ""); e.store(o, bxdecay0::event::STORE_EVENT_TIME); e.print(o, "", ""); g.reset(); }
+      catch (std::exception &) {}
+    }
+    // gA: absent dataset (refusal path), then a small one
+    for (int pass = 0; pass < 2; pass++) {
+      std::string p = ga_root() + "/data/dbd_gA/v1.0/Se82/g0/tab_ocdf.data";
+      if (pass == 1) fs::put(p, ga_dataset("small")); else fs::remove(p);
+      bxdecay0::decay0_generator g;
+      g.set_decay_category(bxdecay0::decay0_generator::DECAY_CATEGORY_DBD); g.set_decay_isotope("Se82"); g.set_decay_dbd_level(0);
+      g.set_decay_dbd_mode(bxdecay0::DBDMODE_2NUBB_GA_G0);
+      SimRandom r(3); r.begin_op(1000000);
+      try { g.initialize(r); bxdecay0::event e; g.shoot(r, e); } catch (std::exception &) {}
+    }
+    {
+      std::string p = fs::root() + "/warm/a.d0t";
+      fs::put(p, "0 0 Co60\n1\n3  0 0.1 0.2 0.3\n\n");
+      try { bxdecay0::event_reader::config_type c; c.event_files = {p}; bxdecay0::event_reader rd(c, 0); bxdecay0::event e; while (rd.has_next_event()) rd.load_next_event(e); } catch (std::exception &) {}
+    }
+    (void)std::stod("1.5e3"); (void)std::stoi("12");
+    fs::reset();
+  } catch (...) {}
+}
+
+void suite_process_init(bool warm)
 {
   // constant for the life of the process: dbd_gA::env_data_base_dir() keeps the last value it saw
   setenv("BXDECAY0_DBD_GA_DATA_DIR", ga_root().c_str(), 1);
+  if (warm) warm_up();
 }
 
 } // namespace sim
